@@ -154,6 +154,21 @@ class EncodeState:
                     EncodeError)
                 internal_value = int(internal_value)
 
+            # make sure that the value is representable using the
+            # specified number of bits
+            if bit_length > 0:
+                max_value = (1 << (bit_length - 1)) - 1
+                if base_type_encoding in (None, Encoding.TWOC):
+                    min_value = -(1 << (bit_length - 1))
+                else:
+                    # one-complement and sign-magnitude
+                    min_value = -max_value
+                if internal_value < min_value or internal_value > max_value:
+                    odxraise(
+                        f"The value '{internal_value!r}' cannot be encoded using "
+                        f"{bit_length} bits.", EncodeError)
+                    internal_value = max(min_value, min(internal_value, max_value))
+
             if base_type_encoding == Encoding.ONEC:
                 # one-complement
                 if internal_value >= 0:
